@@ -153,8 +153,9 @@ def blame(tterm, value, ctx, obj, exc_out):
     (or that has no Python validate at all), as a family name."""
     head = tterm[0] if isinstance(tterm, list) else tterm
     if head in ("Either", "CompoundH"):
-        for a in alternatives(tterm):
-            pa = Paths(a, ctx)
+        # TraitCompound.validate: the handlers with a descriptor first, then the others
+        alts = [(a, Paths(a, ctx)) for a in alternatives(tterm)]
+        for a, pa in [x for x in alts if x[1].fv is not None] + [x for x in alts if x[1].fv is None]:
             if not pa.has_py:
                 return "no-python-validate:" + V.trait_head(a), a
             out, _, _ = V.show_outcome(lambda: pa.py(obj, value), ctx)
